@@ -28,7 +28,65 @@ func ruleCanonNormalizer(c *Ctx) {
 	}
 	c.saw(c.funcName(fd))
 	const fragCleared, cleaned factBits = 1, 2
+	// summaries of package helpers that take the URL: which of the two facts they establish on every path
+	summary := func(g *types.Func) factBits {
+		gfd := c.decl(g)
+		if gfd == nil || gfd.Body == nil {
+			return 0
+		}
+		res := ^factBits(0)
+		seen := false
+		var inner func(n ast.Node, in factBits) factBits
+		inner = func(n ast.Node, in factBits) factBits {
+			as, ok := n.(*ast.AssignStmt)
+			if !ok || len(as.Lhs) != 1 || len(as.Rhs) != 1 {
+				return in
+			}
+			p, ok := c.apath(as.Lhs[0])
+			if !ok || len(p.Steps) != 1 {
+				return in
+			}
+			switch p.Steps[0] {
+			case "Fragment":
+				if s, ok := c.constString(as.Rhs[0]); ok && s == "" {
+					in |= fragCleared
+				}
+			case "Path":
+				if call, ok := unparen(as.Rhs[0]).(*ast.CallExpr); ok && c.isPkgFunc(call, "path", "Clean") {
+					in |= cleaned
+				}
+			}
+			return in
+		}
+		flowForward(c.cfgOf(gfd), 0, inner, func(nd ast.Node, in factBits) {
+			if _, ok := nd.(*ast.ReturnStmt); ok {
+				res &= in
+				seen = true
+			}
+		})
+		if !seen {
+			// no explicit return: facts at the end of a straight-line body
+			v := factBits(0)
+			for _, st := range gfd.Body.List {
+				v = inner(st, v)
+			}
+			return v
+		}
+		return res
+	}
 	transfer := func(n ast.Node, in factBits) factBits {
+		if es, ok := n.(*ast.ExprStmt); ok {
+			if call, ok := es.X.(*ast.CallExpr); ok {
+				if g, ok := c.callee(call).(*types.Func); ok && g.Pkg() == c.Types {
+					for _, a := range call.Args {
+						if t := c.typeOf(a); t != nil && strings.HasSuffix(types.TypeString(t, nil), "net/url.URL") {
+							in |= summary(g)
+						}
+					}
+				}
+			}
+			return in
+		}
 		as, ok := n.(*ast.AssignStmt)
 		if !ok || len(as.Lhs) != 1 || len(as.Rhs) != 1 {
 			return in
